@@ -57,6 +57,14 @@ CLAIMED = {
    technique="sibling table agreement (lossy derive keys extracted by interpreting the generated to_paragraph vs lossless accessor field names extracted by interpreting every accessor); classification loops of lossy Control/Copyright interpreted on all paragraph sequences <= 3; printer separators and routing",
    text="Decides the structural clauses: (D4) for the 100+ (document, field) pairs present in both back-ends the lossy key equals the lossless accessor's field name; (D1) lossy Control/Copyright classify paragraphs by Source/Package resp. Files/License exactly as the document model says and reject no/several sources, paragraphs of neither kind; (D2) Control, Copyright and Repositories print paragraphs separated by exactly one empty line; (D3) every lossy document reads through the deb822 reader + its own derived from_paragraph and prints its own to_paragraph. The print/reparse fixpoint itself is not evaluated: it follows from these clauses with C16 (per-field codecs), C08 (printer forms) and C03/C06 (readers).",
    note="Bounded paragraph sequences (<= 3); paragraph conversions are stubbed in the classification runs (their correctness is C16)."),
+ "C04": dict(level="other", ref="4/C04",
+   technique="abstract interpretation of Paragraph::{set,insert,remove,rename} on syntax trees obtained by interpreting the repository's own parser on symbolic documents, with a model of rowan 0.16's mutable-tree API; list-model comparison of the printed document; ownership / who-may-mutate rules on the resolved call sites",
+   text="For 5 symbolic layouts (comments between fields, duplicate names, multi-line values with odd indentation, missing final newline, trailing comment, second paragraph) x 13 operations the document after the edit must print exactly what the list model prescribes (only the touched field re-rendered as 'Name: l0 LF ( l_i LF)*', everything else byte-identical, appends after a terminated last line, every field of a name removed), the live items() must agree, no child iterator may be advanced after its last yielded node was detached, Entry::new / FromIterator emit the canonical token shapes on mutable trees, every root in src/lossless.rs is new_root_mut and only the editing API calls splice_children/detach. Bounded, single-edit histories; not an equivalence proof over arbitrary histories.",
+   note="Rowan's behaviour is modelled by hand (rules/treemodel.py: splice_children, detach, index, lazy child iterators continuing from the previously yielded node) and validated against the observed behaviour of the pre-fix defects. Re-reading the printed result is delegated to C03 (expected text consists of well-formed line forms)."),
+ "C05": dict(level="other", ref="4/C05",
+   technique="abstract interpretation of Deb822::{add_paragraph,insert_paragraph,remove_paragraph} (+ a field edit on the returned paragraph) on interpreted-parser trees with the rowan model; list model + acceptance and paragraph split of the flattened token sequence by the well-formed token grammar",
+   text="For 7 symbolic layouts (empty, several blank lines, leading / intermediate comments, missing final newline, trailing blanks) and every index 0..n+1 the live paragraph list must equal push/insert(i)/remove(i) on the list model (out-of-range insert appends, out-of-range remove is a no-op), the printed token sequence must be accepted by the well-formed grammar and split into exactly the model's paragraphs (i.e. re-reads identically, paragraphs stay separated by a blank line), and every comment must survive in order. Bounded: one paragraph operation per run.",
+   note="As C04: hand-written rowan model; the flattened token sequence is assumed to re-lex to itself when the grammar accepts it."),
 }
 NA_REASON = "check not built yet (construction in progress; see DESIGN.md section 9 build order)"
 
